@@ -1,8 +1,10 @@
 """C14 - loss gradients through the hedger are the true gradients.  Engine: grid (configurations).
 
 Families
-  grad_fd    for every configuration (criterion x feature set / evaluation mode x cost x number of
-             hedging instruments x model x path set) the gradient of ``Hedger.compute_loss`` w.r.t.
+  grad_fd    for every configuration (criterion x feature set / evaluation mode [incl. ModuleOutput features
+             with and without parameters, fed with prev_hedge or not] x cost x number of hedging instruments x
+             model [tanh-MLP, Linear, trainable no-transaction bands through Clamp/LeakyClamp/functional clamps
+             in both inverted_output modes] x path set) the gradient of ``Hedger.compute_loss`` w.r.t.
              EVERY scalar parameter (model, ModuleOutput's module, criterion) obtained by
              back-propagation is compared with central finite differences of the same loss on the
              same scripted paths (mc/models/fd_ref.py), two step sizes; coordinates whose two
@@ -193,9 +195,11 @@ def build_world(case):
     stock = market.primary("brownian", dtype=f64, cost=cost, dt=DT, sigma=0.25)
     deriv = market.derivative("european", stock, T=T, dt=DT, strike=1.0)
     crit_name = case["criterion"]
+    endowment = {"value": 0.0}
     if crit_name.startswith("isoelastic"):
         # isoelastic utility needs positive wealth: the liability is the payoff minus a constant endowment
-        deriv.add_clause("c14_endowment", lambda d, payoff: payoff - 4.0)
+        # (fixed below, once the hedger exists, so that the terminal wealth is >= 2 on every path)
+        deriv.add_clause("c14_endowment", lambda d, payoff: payoff - endowment["value"])
     w.sim = market.ScriptedSimulate(stock, [{"spot": spot}], cycle=True)
     H = case["H"]
     hedge = None
@@ -250,6 +254,13 @@ def build_world(case):
     if hedger.inputs.of(deriv, hedger).is_state_dependent() != stepwise_expected(fm):
         raise HarnessError(f"C14: feature mode {fm} does not select the intended evaluation mode")
     w.mo_net, w.model, w.criterion = mo_net, model, crit
+    if crit_name.startswith("isoelastic"):
+        with torch.no_grad():
+            deriv.simulate(n_paths=N)
+            worst_pl = float(hedger.compute_pl(deriv, hedge=hedge).min())
+        if not math.isfinite(worst_pl):
+            worst_pl = 0.0
+        endowment["value"] = float(math.ceil(max(0.0, -worst_pl))) + 2.0
     params = [("model." + n, p) for n, p in model.named_parameters()]
     if mo_net is not None:
         params += [("module_output." + n, p) for n, p in mo_net.named_parameters()]
@@ -364,7 +375,7 @@ def grad_fd(ctx, block):
                 tol = 1e-6 * abs(ref) + acc
                 if clean and abs(a - ref) <= tol:
                     verdict = "smooth" if level == 0 else "resolved"
-                    worst = max(worst, abs(a - ref) / (abs(ref) + g_scale * 1e-3))
+                    worst = max(worst, abs(a - ref) / max(abs(ref) + g_scale * 1e-3, 1e-300))
                     break
                 if level + 2 >= len(LADDER):
                     verdict = "mismatch" if clean else "undecided"
@@ -564,8 +575,8 @@ def run(ctx):
     ctx.counters.setdefault("nonsmooth_coordinates", 0)
     ctx.counters.setdefault("nonsmooth_undecided_coordinates", 0)
     # coordinates with a kink inside the coarse stencil are decided on a finer pair (counted above); the ones a
-    # kink closer than the finest step leaves undecided must stay below 1 % (and all non-smooth ones below 5 %)
-    if n_u * 100 >= max(1, n_s + n_k) or n_k * 20 >= max(1, n_s + n_k):
+    # kink closer than the finest step leaves undecided must stay below 1 %
+    if n_u * 100 >= max(1, n_s + n_k):
         ctx.violation("C14.harness", "too_many_nonsmooth_coordinates",
                       f"{n_u} undecided / {n_k} non-smooth of {n_s + n_k} coordinates: the finite-difference oracle is not decisive",
-                      observed=[n_u, n_k], expected="< 1 % undecided, < 5 % non-smooth", block={"cases": []}, family="grad_fd")
+                      observed=[n_u, n_k], expected="< 1 % undecided", block={"cases": []}, family="grad_fd")
